@@ -272,7 +272,7 @@ def _set_loc(m, loc, val):
 
 
 def _gen_perturb(S, cfg, m, h):
-    kinds = ['value', 'mult', 'position', 'bound', 'charge', 'drop', 'dup']
+    kinds = ['value', 'mult', 'position', 'bound', 'charge', 'drop', 'dup', 'ambiguous', 'global', 'global']
     for _ in range(6):
         kind = S.pick(kinds)
         if kind in ('value', 'mult', 'drop', 'dup'):
@@ -333,6 +333,38 @@ def _gen_perturb(S, cfg, m, h):
             c = S.pick([c for c in (1, 2, 3, -1) if c != m.charge])
             m.charge = c
             return {'act': 'charge', 'obj': h, 'charge': c, 'via': 'set', 'why': 'perturb-charge'}
+        if kind == 'ambiguous':
+            if not m.intervals:
+                continue
+            k = S.randint(0, len(m.intervals) - 1)
+            ivs = copy.deepcopy(m.intervals)
+            ivs[k][2] = not ivs[k][2]
+            m.intervals = ivs
+            return {'act': 'intervals', 'obj': h, 'ivs': ivs, 'append': False, 'via': 'set', 'form': 'interval',
+                    'why': 'perturb-ambiguous'}
+        if kind == 'global':
+            # one global annotation (isotope label, static rule, charge adduct) added, dropped or replaced
+            f = S.pick(['isotope', 'static', 'adducts'])
+            cur = [list(x) for x in getattr(m, f)]
+            new = _gen_fieldval(S, cfg, f, 1)
+            how = S.pick(['add', 'drop', 'replace'])
+            if how == 'drop' and cur:
+                del cur[S.randint(0, len(cur) - 1)]
+            elif how == 'replace' and cur:
+                j = S.randint(0, len(cur) - 1)
+                if _same_value(cur[j][0], new[0][0]):
+                    continue
+                cur[j] = new[0]
+            else:
+                cur = cur + new
+            if not cur:
+                ev = {'act': 'pop', 'obj': h, 'what': f, 'scribble': False, 'k': 0, 'why': 'perturb-global'}
+                setattr(m, f, [])
+                return ev
+            ev = {'act': 'field', 'obj': h, 'field': f, 'mods': cur, 'append': False, 'via': 'add', 'form': 'modlist',
+                  'why': 'perturb-global'}
+            setattr(m, f, cur)
+            return ev
     return None
 
 
@@ -836,6 +868,8 @@ def _exec_event(run, ev_i, ev):
         raise HarnessError(f"unknown act {act}")
     if ev.get('why', '').startswith('perturb') or act == 'move':
         out.probes['single_field_perturbations'] += 1
+        if act not in ('setloc', 'move'):
+            out.probes[ev['why']] += 1
     if run.check_models(ev_i, ev, edited):
         return True
     if run.check_kept(ev_i, ev):
@@ -1004,7 +1038,7 @@ RULE = ("seeded random editor history (8-25 events) on a generated source annota
         "least two live objects and more than two oracle comparisons.")
 EXPECTED_PROBES = ['copies', 'rebuilds', 'rebuilds_from_one_kept_dict', 'roundtrips', 'single_field_perturbations', 'eq_negative_checked',
                    'eq_positive_checked', 'perturb-value', 'perturb-mult', 'perturb-drop', 'perturb-dup',
-                   'perturb-position', 'reorder']
+                   'perturb-position', 'perturb-ambiguous', 'perturb-global', 'reorder']
 ASSUMPTIONS = [
     "editor contract as read from the signatures: add_X(v, append) extends or replaces X; add_internal_mods / "
     "internal_mods setter / add_mod_dict with append=False replace all residue modifications; pop_X returns and clears",
